@@ -108,6 +108,15 @@ Definition version_negotiation : bool :=
   && before "return" "set:Conn.Msize" v && none_before "use:Conn.Msize" "call:RespondError" v
   && before "use:Srv.Dotu" "set:Conn.Dotu" v && none_before "use:Conn.Dotu" "set:Conn.Dotu" v.
 
+(* srv_fcall.go version: under the connection lock, every request of the request table AND every older request
+   queued behind it under the same tag (the .next chain) is marked cancelled before the Rversion is answered:
+   the premise of rule LV1 of Srv/Conc.v, which marks every outstanding request *)
+Definition version_cancels_whole_groups : bool :=
+  let v := shape_of "Srv.version" in
+  before "lock:Conn" "use:Conn.reqs" v && before "use:Conn.reqs" "use:SrvReq.next" v
+  && before "use:SrvReq.next" "set:SrvReq.status" v && then_ "set:SrvReq.status" "unlock:Conn" v
+  && then_ "unlock:Conn" "call:RespondRversion" v && none_before "call:RespondRversion" "set:SrvReq.status" v.
+
 (* srv_srv.go process: a request cancelled before it started is answered and NOT executed *)
 Definition cancelled_not_executed : bool :=
   let p := shape_of "SrvReq.process" in
